@@ -28,6 +28,13 @@ def run(rep, ctx):
     rep.run_rule("C09.R2", "IsNumber covers python numbers and numpy.number", r2_isnumber, ctx)
     rep.run_rule("C09.R3", "all ten binary dunders exist on Scalar and Array with matching operation and operand order", r3_dunders, ctx)
     rep.run_rule("C09.R4", "classes with reflected operators opt out of numpy's own operator dispatch", r4_numpy_defers, ctx)
+    from . import c10
+    from ..report import borrow
+    rep.rule("C09.R5", "every Array result carries the quantity computed by the database operation, also when no element was generated (k / empty-array has the reciprocal dimension; shared with C10.R3)")
+    try:
+        borrow(rep, c10.r3b_result_quantity, ctx, "C10.R3", "C09.R5")
+    except AnalysisError as e:
+        rep.error("C09.R5", str(e))
     rep.not_decided += [
         "numeric results of k OP x",
         "numpy.bool_ and other numpy scalars that are not numpy.number (IsNumber is false for them by design)",
